@@ -27,7 +27,7 @@ package jsonrpc2
 //@ global-invariant ErrRejected != nil
 //@ global-invariant ErrParse != nil
 //@ global-invariant ErrInvalidParams != nil
-//@ func init [C01, C02, C03, C04, C05, C19]
+//@ func init [C01, C02, C03, C04, C05, C19, C18]
 
 //@ pred idle(s *inFlightState) := len(s.outgoingCalls) == 0 && s.outgoingNotifications == 0 && s.incoming == 0 && !s.handlerRunning
 //@ pred shutting(s *inFlightState) := s.connClosing || s.readErr != nil || s.writeErr != nil
